@@ -184,16 +184,14 @@ func appendFollowingSibling(cursor store.Cursor, result []store.Cursor) []store.
 	}
 
 	children := parent.Children()
-	start := 0
 
 	for i := range children {
 		if children[i].Pos() == cursor.Pos() {
-			start = i
-			break
+			return append(result, children[i+1:]...)
 		}
 	}
 
-	return append(result, children[start+1:]...)
+	return result
 }
 
 func selectNamespace(nodeSet NodeSet) Result {
@@ -273,14 +271,12 @@ func appendPrecedingSibling(cursor store.Cursor, result []store.Cursor) []store.
 	}
 
 	children := parent.Children()
-	end := 0
 
 	for i := len(children) - 1; i >= 0; i-- {
 		if children[i].Pos() == cursor.Pos() {
-			end = i
-			break
+			return append(result, children[:i]...)
 		}
 	}
 
-	return append(result, children[:end]...)
+	return result
 }
